@@ -42,6 +42,14 @@ def _gen(rng, i=None):
         post = gen.gen_random(rng, True, 1, 5)
         if rng.random() < 0.2:
             pops = [(rng.choice([0, 1, 3]), 1, rng.choice([1, 2, 3]), gen.long_chain_area(rng))]
+        if rng.random() < 0.25:
+            # the I/O stack is selected INSIDE a loop: the loop head popped from an ordinary stack on the first pass and
+            # is re-executed, after the backward jump, with stack 0 / 1 / 2 selected
+            lab = rng.choice([2, 3, 5, 7])
+            head = (rng.choice([1, 1, 2, 3, 5]), 1, 3, rng.choice([lab, lab, ('?', None, lab)]))
+            mid = [(0, 1, rng.randint(0, 3), None)] * rng.randint(0, 2)
+            close = rng.choice([(0, 1, 3, lab), (0, 3, 1, lab), (0, 1, 3, ('?', None, lab)), (0, 1, 3, ('!', lab, None))])
+            return 'io_in_replay', [(0, 1, rng.randint(0, 3), None)] * rng.randint(1, 3) + [head] + mid + [(5, 1, s, None)] + [close] + post
         return 'io_first', pre + [sel] + pops + post
     if k < 0.5:
         # non-terminating loops whose values stay small
